@@ -262,6 +262,7 @@ def run(ctx: core.Ctx) -> None:
                 ctx.cap(f'{params} k={k}: {len(vecs)} vectors not run (time budget)')
                 continue
             results = pool.map(run_vector, [(params, v) for v in vecs], chunksize=max(1, len(vecs) // 128))
+            core.replay_check(ctx, pool, run_vector, [(params, v) for v in vecs], results, stride=32)
             for v, (viols, outcome, obs) in zip(vecs, results):
                 ctx.count('executions')
                 ctx.count('transitions', horizon)
